@@ -2,6 +2,7 @@ import Propka.Model.Protonate
 import Propka.Props.C20
 import Propka.Gen.Topology
 import Propka.Gen.Protonate
+import Propka.Proofs.Equivariance
 /-! # C17 — added hydrogens are chemically placed and complete
 
 Geometry over `ℝ` on the generic constructions of `Propka.Prot` (the same text runs at `Float`);
@@ -135,3 +136,91 @@ example : dot (⟨1, 0, 0⟩ : V3 ℝ) ⟨1, 0, 0⟩ = 1 ∧ dot (⟨1, 0, 0⟩ 
   simp [dot]
 
 end Propka.Prot
+
+/-! ## the same hydrogens in every orientation
+
+For the rigid motions of the property's family on the coordinate grid (one of the 24 axis-permuting rotations followed by a
+translation), every construction that does not fall back on an arbitrary perpendicular direction (`Vector.orthogonal()`, used
+only for an atom whose single neighbour defines no plane) builds, in the moved frame, the moved hydrogens - provided the
+rounding commutes with the motion (`hr`; it does on the 0.001 A grid, where the motion maps grid points to grid points). -/
+namespace Propka.Equiv
+open Propka
+open Propka.Geom (Mat rot24)
+/-- **Completing a trigonal centre** (two neighbours present, one hydrogen to add: backbone amide N-H, His, Trp, Arg NE):
+    the hydrogen built in the moved frame is the moved hydrogen. -/
+theorem trigonal_completion_equivariant (m : Mat) (hm : m ∈ rot24) (t : V3 ℝ) (rnd rnd' : V3 ℝ → V3 ℝ)
+    (hr : ∀ p, rnd' (move m t p) = move m t (rnd p)) (d120 : ℝ) (c : Prot.Call ℝ) (b1 b2 : V3 ℝ)
+    (hb : c.bonded = [b1, b2]) (ht : c.toAdd = 1) :
+    Prot.trigonal rnd' d120 (moveCall m t c) = (Prot.trigonal rnd d120 c).map (move m t) := by
+  unfold Prot.trigonal moveCall
+  simp only [hb, ht, List.map_cons, List.map_nil, List.length_cons, List.length_nil]
+  norm_num
+  rw [between_move, between_move, act_rescale m hm, act_rescale m hm, ← act_neg, ← act_sub, act_rescale m hm, move_add, hr]
+
+/-- **Completing a tetrahedral centre** (three neighbours present, one hydrogen to add: C-alpha, branched carbons) -/
+theorem tetrahedral_completion_equivariant (m : Mat) (hm : m ∈ rot24) (t : V3 ℝ) (rnd rnd' : V3 ℝ → V3 ℝ)
+    (hr : ∀ p, rnd' (move m t p) = move m t (rnd p)) (d1095 d90 : ℝ) (c : Prot.Call ℝ) (b1 b2 b3 : V3 ℝ)
+    (hb : c.bonded = [b1, b2, b3]) (ht : c.toAdd = 1) :
+    Prot.tetrahedral rnd' d1095 d90 (moveCall m t c) = (Prot.tetrahedral rnd d1095 d90 c).map (move m t) := by
+  unfold Prot.tetrahedral moveCall
+  simp only [hb, ht, List.map_cons, List.map_nil, List.length_cons, List.length_nil]
+  norm_num
+  rw [between_move, between_move, between_move, act_rescale m hm, act_rescale m hm, act_rescale m hm, ← act_neg, ← act_sub, ← act_sub,
+    act_rescale m hm, move_add, hr]
+
+/-- **A methylene group** (two neighbours present, two hydrogens to add): the first hydrogen is the reversed first bond turned by
+    90 degrees about the bisector, the second completes the tetrahedron of the two neighbours and the (rounded) first hydrogen.
+    Needs the bisector to be non-zero (the two neighbours not exactly opposite). -/
+theorem methylene_equivariant (m : Mat) (hm : m ∈ rot24) (t : V3 ℝ) (rnd rnd' : V3 ℝ → V3 ℝ)
+    (hr : ∀ p, rnd' (move m t p) = move m t (rnd p)) (d1095 d90 : ℝ) (c : Prot.Call ℝ) (b1 b2 : V3 ℝ)
+    (hb : c.bonded = [b1, b2]) (ht : c.toAdd = 2)
+    (hax : let ax := Prot.vadd (Prot.rescale (Prot.between c.atom b1) 1) (Prot.rescale (Prot.between c.atom b2) 1)
+           ax.x ≠ 0 ∨ ax.y ≠ 0 ∨ ax.z ≠ 0) :
+    Prot.tetrahedral rnd' d1095 d90 (moveCall m t c) = (Prot.tetrahedral rnd d1095 d90 c).map (move m t) := by
+  unfold Prot.tetrahedral moveCall
+  simp only [hb, ht, List.map_cons, List.map_nil, List.length_cons, List.length_nil]
+  norm_num
+  simp only at hax
+  have h1 : rnd' (Prot.vadd (move m t c.atom) (Prot.rescale (Rot.rotateAround d90
+        (Prot.vadd (Prot.rescale (Prot.between (move m t c.atom) (move m t b1)) 1) (Prot.rescale (Prot.between (move m t c.atom) (move m t b2)) 1))
+        (Prot.vneg (Prot.rescale (Prot.between (move m t c.atom) (move m t b1)) 1))) c.bondLen)) =
+      move m t (rnd (Prot.vadd c.atom (Prot.rescale (Rot.rotateAround d90
+        (Prot.vadd (Prot.rescale (Prot.between c.atom b1) 1) (Prot.rescale (Prot.between c.atom b2) 1))
+        (Prot.vneg (Prot.rescale (Prot.between c.atom b1) 1))) c.bondLen))) := by
+    rw [between_move, between_move, act_rescale m hm, act_rescale m hm, ← act_neg, ← act_add,
+      rotateAround_equivariant m hm _ _ _ hax, act_rescale m hm, move_add, hr]
+  refine ⟨h1, ?_⟩
+  rw [h1, between_move, between_move, between_move, act_rescale m hm, act_rescale m hm, act_rescale m hm, ← act_neg, ← act_sub, ← act_sub,
+    act_rescale m hm, move_add, hr]
+
+/-- **An amide / guanidinium NH2** (one neighbour, which is planar and has two further neighbours; two hydrogens to add: Asn ND2,
+    Gln NE2, Arg NH1/NH2): the first hydrogen is the bond turned by 120 degrees about the normal of the neighbour's plane, the
+    second completes the trigonal centre.  Needs that normal to be non-zero. -/
+theorem amide_nh2_equivariant (m : Mat) (hm : m ∈ rot24) (t : V3 ℝ) (rnd rnd' : V3 ℝ → V3 ℝ)
+    (hr : ∀ p, rnd' (move m t p) = move m t (rnd p)) (d120 : ℝ) (c : Prot.Call ℝ) (b0 o1 o2 : V3 ℝ)
+    (hb : c.bonded = [b0]) (ho : c.nbOthers = [o1, o2]) (hs : c.nbSteric = 3) (ht : c.toAdd = 2)
+    (hax : (planarAxis c.atom b0 o1 o2).x ≠ 0 ∨ (planarAxis c.atom b0 o1 o2).y ≠ 0 ∨ (planarAxis c.atom b0 o1 o2).z ≠ 0) :
+    Prot.trigonal rnd' d120 (moveCall m t c) = (Prot.trigonal rnd d120 c).map (move m t) := by
+  have hp := planarAxis_move m hm t c.atom b0 o1 o2
+  unfold planarAxis at hp hax
+  simp only at hp hax
+  unfold Prot.trigonal moveCall
+  simp only [hb, ho, hs, ht, List.map_cons, List.map_nil, List.length_cons, List.length_nil]
+  norm_num
+  have h1 : rnd' (Prot.vadd (move m t c.atom) (Prot.rescale (Rot.rotateAround d120
+        (if 0 < Prot.dot (Prot.cross (Prot.between (move m t c.atom) (move m t b0)) (Prot.between (move m t b0) (move m t o1)))
+              (Prot.cross (Prot.between (move m t c.atom) (move m t b0)) (Prot.between (move m t b0) (move m t o2)))
+         then Prot.vadd (Prot.cross (Prot.between (move m t c.atom) (move m t b0)) (Prot.between (move m t b0) (move m t o1)))
+              (Prot.cross (Prot.between (move m t c.atom) (move m t b0)) (Prot.between (move m t b0) (move m t o2)))
+         else Prot.vsub (Prot.cross (Prot.between (move m t c.atom) (move m t b0)) (Prot.between (move m t b0) (move m t o1)))
+              (Prot.cross (Prot.between (move m t c.atom) (move m t b0)) (Prot.between (move m t b0) (move m t o2))))
+        (Prot.between (move m t c.atom) (move m t b0))) c.bondLen)) =
+      move m t (rnd (Prot.vadd c.atom (Prot.rescale (Rot.rotateAround d120
+        (if 0 < Prot.dot (Prot.cross (Prot.between c.atom b0) (Prot.between b0 o1)) (Prot.cross (Prot.between c.atom b0) (Prot.between b0 o2))
+         then Prot.vadd (Prot.cross (Prot.between c.atom b0) (Prot.between b0 o1)) (Prot.cross (Prot.between c.atom b0) (Prot.between b0 o2))
+         else Prot.vsub (Prot.cross (Prot.between c.atom b0) (Prot.between b0 o1)) (Prot.cross (Prot.between c.atom b0) (Prot.between b0 o2)))
+        (Prot.between c.atom b0)) c.bondLen))) := by
+    rw [hp, between_move, rotateAround_equivariant m hm _ _ _ hax, act_rescale m hm, move_add, hr]
+  refine ⟨h1, ?_⟩
+  rw [h1, between_move, between_move, act_rescale m hm, act_rescale m hm, ← act_neg, ← act_sub, act_rescale m hm, move_add, hr]
+end Propka.Equiv
